@@ -155,7 +155,8 @@ def corpus_cases(ctx):
             continue
         spec = json.load(open(os.path.join(d, fn)))
         src = os.path.join(d, spec["session"])
-        rc, out = vlib.sh([paths["hx_repl"], "--session", src, "--opt", str(spec.get("opt", 1))], timeout=120)
+        rc, out = vlib.sh([paths["hx_repl"], "--session", src, "--opt", str(spec.get("opt", 1))], timeout=120,
+                          cwd=os.path.join(d, spec["cwd"]) if spec.get("cwd") else None)
         got = []
         text = open(src).read()
         steps = text.split("\n=====\n")
